@@ -120,6 +120,9 @@ func genWorlds(r *wire.Rng, n int) []genWorld {
 					add(podSpec{name: "zt" + strconv.Itoa(i+1), ns: "istio-system", sa: sa, node: n})
 				}
 			}
+			if r.Chance(1, 2) {
+				add(podSpec{name: "ztx", ns: "istio-system", sa: "other", node: wire.Pick(r, genNodes)})
+			}
 			np := 2 + r.Intn(7)
 			for i := 0; i < np; i++ {
 				p := podSpec{name: "p" + strconv.Itoa(i), ns: wire.Pick(r, genNSs), sa: wire.Pick(r, genSAs), node: wire.Pick(r, genNodes)}
@@ -129,8 +132,13 @@ func genWorlds(r *wire.Rng, n int) []genWorld {
 				if r.Chance(1, 10) {
 					p.node = ""
 				}
-				if r.Chance(1, 8) {
-					p.failed = true
+				switch r.Intn(16) {
+				case 0, 1:
+					p.phase = "F"
+				case 2:
+					p.phase = "S" // completed pods still pass the informer's selector (status.phase!=Failed)
+				case 3:
+					p.phase = "P"
 				}
 				add(p)
 			}
@@ -391,7 +399,9 @@ func genKube(r *wire.Rng, w genWorld) (k security.KubernetesInfo) {
 		}
 	}
 	k = kinfo(p.name, p.ns, p.uid, p.sa)
-	switch r.Intn(14) {
+	switch r.Intn(15) {
+	case 14:
+		k.PodUID = "" // e.g. a TokenReview without the pod-uid extra
 	case 0:
 		k.PodUID = "stale-uid"
 	case 1:
@@ -458,7 +468,23 @@ func genGoodImpersonation(r *wire.Rng, w genWorld, q *reqSpec) {
 	o := authOutcome{kind: "ok", ids: []string{"spiffe://cluster.local/ns/" + zt.ns + "/sa/" + zt.sa}, kube: kinfo(zt.name, zt.ns, zt.uid, zt.sa)}
 	imp := "spiffe://" + wire.Pick(r, genTDs) + "/ns/" + tgt.ns + "/sa/" + tgt.sa
 	q.cluster = wire.EncList([]string{id})
-	switch r.Intn(18) {
+	switch r.Intn(21) {
+	case 18:
+		o.kube.PodUID = "" // valid pod name, no UID presented
+	case 19, 20:
+		// the claimed (trusted) account is not the account the named pod runs as: a pod of the same
+		// namespace with another service account, everything else in place (only the SA check refuses)
+		for _, p := range pods {
+			if p.ns == zt.ns && p.sa != zt.sa && !p.failed() {
+				o.kube = kinfo(p.name, p.ns, p.uid, zt.sa)
+				for _, t := range pods {
+					if t.node == p.node && t.sa != "" && t.node != "" && !t.failed() {
+						imp = "spiffe://cluster.local/ns/" + t.ns + "/sa/" + t.sa
+					}
+				}
+				break
+			}
+		}
 	case 0:
 		o.kube.PodUID = "stale-uid"
 	case 1:
@@ -553,13 +579,25 @@ func genReqA(r *wire.Rng, w genWorld, cfg genCA) reqaSpec {
 			}
 			rev := reviewSpec{authenticated: true, groups: []string{"system:serviceaccounts", "system:authenticated"},
 				username: "system:serviceaccount:" + zt.ns + ":" + zt.sa, podName: "=" + wire.EncList([]string{zt.name}), podUID: "=" + wire.EncList([]string{zt.uid})}
-			switch r.Intn(12) {
+			switch r.Intn(16) {
 			case 0:
 				rev.podUID = "=" + wire.EncList([]string{"stale"})
 			case 1:
 				rev.podName = "-"
 			case 2:
 				rev.authenticated = false
+			case 3:
+				rev.podUID = "-" // the API server reports no pod UID
+			case 4:
+				rev.podUID = "=" // ... or an empty list of them
+			case 5:
+				// the token is the trusted account's, the pod name that of a pod running as another account
+				for _, p := range pods {
+					if p.ns == zt.ns && p.sa != zt.sa && !p.failed() {
+						rev.podName, rev.podUID = "="+wire.EncList([]string{p.name}), "="+wire.EncList([]string{p.uid})
+						break
+					}
+				}
 			}
 			td := wire.Pick(r, genTDs)
 			q.req.cluster = wire.EncList([]string{id})
@@ -587,6 +625,134 @@ func genReqA(r *wire.Rng, w genWorld, cfg genCA) reqaSpec {
 	return q
 }
 
+// genDynamicCase: a private pod world (`nap`) that changes between requests - pods are deleted, added,
+// re-created under the same name with a new UID; a cluster's credentials rotate (cluster update: the old
+// node authorizer answers until the new one has synced), clusters come and go. Each request is the node
+// proxy's impersonation request that would pass on SOME version of the world.
+func genDynamicCase(r *wire.Rng, cfg genCA, out *wire.Out) {
+	uid := 100
+	next := func() string { uid++; return "u" + strconv.Itoa(uid) }
+	mk := func() []podSpec {
+		pods := []podSpec{{name: "zt", ns: "istio-system", uid: next(), sa: "ztunnel", node: "n1"}}
+		for i := 0; i < 1+r.Intn(3); i++ {
+			pods = append(pods, podSpec{name: "w" + strconv.Itoa(i), ns: wire.Pick(r, genNSs), uid: next(), sa: wire.Pick(r, genSAs), node: wire.Pick(r, []string{"n1", "n1", "n2"}),
+				phase: wire.Pick(r, []string{"", "", "", "S", "P", "F"})})
+		}
+		return pods
+	}
+	active := map[string][]podSpec{"c1": mk()}
+	pending := map[string][]podSpec{}
+	knownUIDs := map[string][]string{"zt": {active["c1"][0].uid}}
+	out.Line("nap", wire.EncList([]string{"istio-system/ztunnel"}), "1", "c1", encPods(active["c1"]))
+	request := func() {
+		id := wire.Pick(r, []string{"c1", "c1", "c1", "c2"})
+		ztUID := wire.Pick(r, knownUIDs["zt"]) // possibly the UID of an earlier incarnation
+		for _, p := range active[id] {
+			if p.name == "zt" && r.Chance(3, 4) {
+				ztUID = p.uid
+			}
+		}
+		o := authOutcome{kind: "ok", ids: []string{"spiffe://cluster.local/ns/istio-system/sa/ztunnel"}, kube: kinfo("zt", "istio-system", ztUID, "ztunnel")}
+		ns, sa := wire.Pick(r, genNSs), wire.Pick(r, genSAs)
+		// prefer an identity that some version of the world has on n1
+		var cands []podSpec
+		for _, l := range []map[string][]podSpec{active, pending} {
+			for _, ps := range l {
+				for _, p := range ps {
+					if p.name != "zt" && p.sa != "" {
+						cands = append(cands, p)
+					}
+				}
+			}
+		}
+		if len(cands) > 0 && r.Chance(5, 6) {
+			p := wire.Pick(r, cands)
+			ns, sa = p.ns, p.sa
+		}
+		var onNode []podSpec
+		for _, p := range active[id] {
+			if p.name != "zt" && p.sa != "" && p.node == "n1" && !p.failed() {
+				onNode = append(onNode, p)
+			}
+		}
+		if len(onNode) > 0 && r.Chance(2, 3) {
+			p := wire.Pick(r, onNode)
+			ns, sa = p.ns, p.sa
+		}
+		q := reqSpec{xdsAuth: true, hasPeer: true, tls: true, outs: []authOutcome{o}, csr: csrSpec{form: "ok", key: "ec256-a"}, ttl: 600,
+			imp: "s:" + wire.Enc("spiffe://cluster.local/ns/"+ns+"/sa/"+sa), signer: "-", cluster: wire.EncList([]string{id})}
+		out.Line(q.line()...)
+	}
+	steps := 4 + r.Intn(8)
+	request()
+	for i := 0; i < steps; i++ {
+		id := "c1"
+		_, isPending := pending[id]
+		_, exists := active[id]
+		switch r.Intn(9) {
+		case 0, 1:
+			if exists && !isPending {
+				p := podSpec{name: "n" + strconv.Itoa(uid), ns: wire.Pick(r, genNSs), uid: next(), sa: wire.Pick(r, genSAs), node: wire.Pick(r, []string{"n1", "n1", "n2", ""}),
+					phase: wire.Pick(r, []string{"", "", "S", "P"})}
+				active[id] = append(active[id], p)
+				out.Line("pod", "add", id, wire.Enc(encFields(p.name, p.ns, p.uid, p.sa, p.node, p.phase)))
+			}
+		case 2, 3:
+			if exists && !isPending && len(active[id]) > 0 {
+				k := r.Intn(len(active[id]))
+				p := active[id][k]
+				active[id] = append(append([]podSpec{}, active[id][:k]...), active[id][k+1:]...)
+				out.Line("pod", "del", id, wire.Enc(p.ns), wire.Enc(p.name))
+				if p.name == "zt" && r.Chance(3, 4) {
+					// the node proxy is re-created under the same name with a new UID
+					np := p
+					np.uid = next()
+					np.phase = ""
+					knownUIDs["zt"] = append(knownUIDs["zt"], np.uid)
+					active[id] = append(active[id], np)
+					request()
+					out.Line("pod", "add", id, wire.Enc(encFields(np.name, np.ns, np.uid, np.sa, np.node, np.phase)))
+				}
+			}
+		case 4:
+			// credentials of the cluster rotate: a new node authorizer is built for the same cluster ID
+			pods := mk()
+			knownUIDs["zt"] = append(knownUIDs["zt"], pods[0].uid)
+			run := r.Chance(1, 2)
+			out.Line("cl", "upd", id, encPods(pods), wire.B(run))
+			if run {
+				active[id] = pods
+				delete(pending, id)
+			} else {
+				pending[id] = pods
+				if !exists {
+					active[id] = nil
+				}
+			}
+		case 5:
+			if isPending {
+				out.Line("cl", "sync", id)
+				active[id] = pending[id]
+				delete(pending, id)
+			}
+		case 6:
+			if exists && r.Chance(1, 2) {
+				out.Line("cl", "del", id)
+				delete(active, id)
+				delete(pending, id)
+			}
+		case 7:
+			if !exists {
+				pods := mk()
+				knownUIDs["zt"] = append(knownUIDs["zt"], pods[0].uid)
+				out.Line("cl", "add", id, encPods(pods))
+				active[id] = pods
+			}
+		}
+		request()
+	}
+}
+
 func genIssue(seed uint64, n int, outp string) {
 	out := wire.Create(outp)
 	defer out.Close()
@@ -601,6 +767,10 @@ func genIssue(seed uint64, n int, outp string) {
 		out.Line("case", strconv.Itoa(c), "issue")
 		cfg := genCAConfig(r)
 		out.Line(cfg.line()...)
+		if r.Chance(1, 14) {
+			genDynamicCase(r, cfg, out)
+			continue
+		}
 		w := ws[0]
 		if r.Chance(2, 3) {
 			w = wire.Pick(r, ws)
